@@ -3,8 +3,11 @@
      analysis/serde_parser.rs   parse_struct_serde_attrs, parse_field_serde_attrs,
                                 parse_rename_all, parse_rename          (substring scanners)
      analysis/struct_parser.rs  parse_struct / parse_field (skip filter), parse_enum (no filter)
-     generators/base/template_context.rs  NamingContext::compute_field_name
-     crate serde-rename-rule 0.2.3         RenameRule::apply_to_field, from_rename_all_str
+     generators/base/template_context.rs  NamingContext::apply_naming_convention (CamelCase computed at the
+                                call site), compute_field_name, compute_variant_name
+     crate serde-rename-rule 0.2.3         RenameRule::apply_to_field, apply_to_variant, from_rename_all_str
+   State of the code: /repo with the repairs C06-1-variant-rule, C06-6-variant-skip,
+   C15-fix-C15-rename-restart-offset and C15-fix-C15-camel-call-site-guard applied.
    The serde scanners are a private copy of the ones in Model/Scan.v (shared with C11),
    restated with structural recursion. Definitions only; proofs are in Proofs/C06*.v *)
 From Coq Require Import String Ascii.
@@ -130,7 +133,8 @@ Definition quoted_value (after_eq : str) : option str :=
   | Some (_, r) => match after_char """" r with Some (v, _) => Some v | None => None end
   | None => None end.
 
-(* parse_rename: the loop restarts 10 bytes after a rename that is followed by _all *)
+(* parse_rename: the loop restarts just after the _all that follows a rename (white space between
+   the two is skipped by trim_start) *)
 Fixpoint parse_rename_go (fuel : nat) (tokens : str) : option str :=
   match fuel with
   | 0 => None
@@ -138,7 +142,7 @@ Fixpoint parse_rename_go (fuel : nat) (tokens : str) : option str :=
     match find_sub (L "rename") tokens with
     | None => None
     | Some (_, after_rename) =>
-        if starts (L "_all") (trim_start after_rename) then parse_rename_go f (skipn 4 after_rename)
+        if starts (L "_all") (trim_start after_rename) then parse_rename_go f (skipn 4 (trim_start after_rename))
         else match after_char "=" after_rename with
              | Some (_, r) => quoted_value (trim_start r)
              | None => None end
@@ -218,34 +222,68 @@ Definition lower_first_b (s : str) : outcome str :=
                  end
   end.
 
-Definition apply_to_field_b (r : rule) (s : str) : outcome str :=
+(* apply_to_variant; SnakeCase puts an underscore before every upper-case letter but the first
+   character and lower-cases everything (char::is_uppercase is read on ASCII only) *)
+Fixpoint snake_go (first : bool) (s : str) : str :=
+  match s with
+  | [] => []
+  | c :: r => (if negb first && is_upper c then ["_"] else []) ++ lower c :: snake_go false r
+  end.
+Definition snake (s : str) : str := snake_go true s.
+Definition apply_to_variant_b (r : rule) (s : str) : outcome str :=
   match r with
-  | RLower | RSnake => Ok s
-  | RUpper | RScreamingSnake => Ok (map upper s)
-  | RPascal => Ok (pascal true s)
-  | RCamel => lower_first_b (pascal true s)
-  | RKebab => Ok (us_to_dash s)
-  | RScreamingKebab => Ok (us_to_dash (map upper s))
+  | RPascal => Ok s
+  | RLower => Ok (map lower s)
+  | RUpper => Ok (map upper s)
+  | RCamel => lower_first_b s
+  | RSnake => Ok (snake s)
+  | RScreamingSnake => Ok (map upper (snake s))
+  | RKebab => Ok (us_to_dash (snake s))
+  | RScreamingKebab => Ok (us_to_dash (map upper (snake s)))
   end.
 
 (* ------------------------------------------------------------------ template_context.rs *)
+(* apply_naming_convention: CamelCase is computed at the call site (PascalCase form, first character
+   lowered through chars(); the name itself when that form is empty); the other rules are the
+   crate's apply_to_field. Total. The first character is lowered with to_ascii_lowercase, the
+   identity on a non-ASCII character, hence on its first byte. *)
+Definition camel_guard (s : str) : str :=
+  match pascal true s with [] => s | c :: rest => lower c :: rest end.
+Definition apply_naming_convention (r : rule) (s : str) : str :=
+  match r with
+  | RLower | RSnake => s
+  | RUpper | RScreamingSnake => map upper s
+  | RPascal => pascal true s
+  | RCamel => camel_guard s
+  | RKebab => us_to_dash s
+  | RScreamingKebab => us_to_dash (map upper s)
+  end.
 Definition default_case (dfc : str) : rule := match rule_of_str dfc with Some r => r | None => RCamel end.
-Definition compute_field_name (dfc : str) (name : str) (rename : option str) (ra : option rule) : outcome str :=
+Definition compute_field_name (dfc : str) (name : str) (rename : option str) (ra : option rule) : str :=
   match rename with
-  | Some r => Ok r
-  | None => apply_to_field_b (match ra with Some c => c | None => default_case dfc end) name
+  | Some r => r
+  | None => apply_naming_convention (match ra with Some c => c | None => default_case dfc end) name
+  end.
+(* variants: rename > apply_to_variant of the container rule > the Rust name (no default case) *)
+Definition compute_variant_name (name : str) (rename : option str) (ra : option rule) : outcome str :=
+  match rename, ra with
+  | Some r, _ => Ok r
+  | None, Some c => apply_to_variant_b c name
+  | None, None => Ok name
   end.
 
 (* ------------------------------------------------------------------ struct_parser.rs + generators *)
-(* parse_field drops a struct field whose skip flag is set; parse_enum keeps every variant.
-   The generators print serialized_name of every FieldInfo, in order. *)
+(* parse_field drops a struct field whose skip flag is set; parse_enum filters variants with the same
+   flag. The generators print serialized_name of every remaining FieldInfo, in order:
+   compute_field_name for fields, compute_variant_name for variants (rust_type starting with enum_variant). *)
 Fixpoint emit_raw (k : kind) (dfc : str) (ra : option rule) (l : list (str * list str)) : outcome (list str) :=
   match l with
   | [] => Ok []
   | (ident, toks) :: r =>
       let '(rn, sk) := field_attrs toks in
-      if is_struct k && sk then emit_raw k dfc ra r
-      else match compute_field_name dfc ident rn ra, emit_raw k dfc ra r with
+      if sk then emit_raw k dfc ra r
+      else match (if is_struct k then Ok (compute_field_name dfc ident rn ra) else compute_variant_name ident rn ra),
+                 emit_raw k dfc ra r with
            | Ok n, Ok ns => Ok (n :: ns)
            | _, _ => Panic
            end
